@@ -4,7 +4,7 @@ def obligations():
     parser_ob.ACCEPT_KEYS = {'panic', 'hang'}
     obs = parser_ob.obligations_seq('O4.2') + parser_ob.obligations_templates('O4.2')
     from props import selftest_ob, lower_ob
-    obs += lower_ob.obligations_lower('O4.4')
+    obs += lower_ob.obligations_lower('O4.4') + lower_ob.obligations_numbers()
     from props import c04_pkg
     obs += c04_pkg.obligations()
     obs += string_nopanic_obligations()
